@@ -9,6 +9,7 @@ from __future__ import annotations
 
 from dataclasses import dataclass
 from struct import pack, unpack
+from struct import error as struct_error
 from typing import TYPE_CHECKING, ClassVar, Generator
 
 from exabgp.util.types import Buffer
@@ -391,7 +392,13 @@ class UpdateCollection(Message):
             else:
                 include_defaults = False
 
-        attr = self.attributes.pack_attribute(negotiated, include_defaults)
+        try:
+            attr = self.attributes.pack_attribute(negotiated, include_defaults)
+        except struct_error:
+            # an attribute longer than 65535 bytes has no wire form at all: same outcome as attributes
+            # which leave no room for a prefix (raising here killed the peer task and the session)
+            log.critical(lazymsg('update.pack.error reason=attributes_too_large'), 'parser')
+            return
 
         # Withdraws/NLRIS (IPv4 unicast and multicast)
         msg_size = negotiated.msg_size - 19 - 2 - 2 - len(attr)  # 2 bytes for each of the two prefix() header
